@@ -7,6 +7,22 @@ HOOK_COMMITS = ["2c68a33"]
 
 # id -> (engine, level, technique, level text, level note)
 CHECKS = {
+ "C01": ("bubble", "exploration",
+         "lock-step reference-model monitor (pubsub model) over per-session receive logs at synctest quiescence",
+         "runtime monitor: generated pub/sub histories are executed against the real router inside a virtual-time bubble; after every step, at a true quiescence point, every session's receive log (incl. a catch-all observer) is compared as a multiset with the prediction of an independent pubsub model (matching, exclusion, filters, ids, payload, errors); held on the generated histories only",
+         "reference model harness/model/pubsub.go + uriref.go; puppets use the nexus serializers on their side of network transports; generators stay in the decided domain (I8)"),
+ "C02": ("bubble", "exploration",
+         "lock-step per-call reply automaton + RPC reference model under virtual time",
+         "runtime monitor: generated RPC histories (cancel modes, timeouts, late/foreign/duplicate answers, departures, kills) in lock-step; per (caller,id) automaton 'progress* then exactly one final, nothing after, nothing foreign'; liveness restated as: at the quiescent point after the trigger (clock finally advanced 3 h) the final reply is in the caller's log",
+         "unbounded eventually restated as bounded progress at quiescence; callers keep reading"),
+ "C03": ("bubble", "exploration",
+         "lock-step RPC routing reference model (best match, invocation policy, ids, payload, ownership)",
+         "runtime monitor: generated registration/call histories in lock-step against a routing model that is nondeterministic exactly where the statement is (which wildcard, random member, rotation start after a membership change)",
+         "round-robin judged by the window rule (k distinct members then cyclic) on constant membership; distribution of random not judged"),
+ "C13": ("bubble", "exploration",
+         "lock-step cancel/timeout state-machine model with exact virtual timestamps",
+         "runtime monitor: cancel modes and router-side timeouts checked against the documented state machine; the virtual clock is stopped 1 ms before every deadline (silence required) and exactly on it (timeout ERROR and INTERRUPT required with timestamp == deadline)",
+         "virtual time of testing/synctest stands for real time; ties between a deadline and an answer are avoided by construction in deciding runs"),
  "C19": ("pure", "exploration",
          "runtime differential monitoring against reference functions (bounded-exhaustive + random inputs)",
          "differential runtime monitor: the real ValidURI/PrefixMatch/WildcardMatch/IDGen/GlobalID/AsID/IsNewRecvID are executed on bounded-exhaustive and random inputs and every result is compared with reference functions written from the statement; exhaustive for short strings over a 10-symbol alphabet and for id pairs near both boundaries, sampled beyond",
